@@ -523,6 +523,9 @@ func (g *vGen) hostilePrefix(steps int, hostile bool) {
 			}
 		case x < 96 && hostile && r.Intn(3) == 0:
 			s.exec(&vOp{Op: "restart", N: c.At})
+		case x < 97 && hostile && r.Intn(2) == 0:
+			// the node's database is busy when the next received transaction is added
+			s.exec(&vOp{Op: "fault", N: c.At})
 		case x < 98:
 			// a node creates a transaction of its own
 			k := c.At
@@ -582,6 +585,18 @@ func (g *vGen) runScenario(idx int, dir string) vVerdict {
 		}
 		feats = append(feats, "restarts")
 	}
+	// transient "database busy" faults during the fair suffix: the next Add of a received transaction fails on every node, once
+	// more on one node a round later (a failed Add is a lost TransactionList: later rounds make up for it)
+	extra := 0
+	if idx%3 == 2 {
+		var everyone []int
+		for i := 0; i < nNodes; i++ {
+			everyone = append(everyone, i)
+		}
+		s.faultAt = map[int][]int{0: everyone, 1 + r.Intn(2): {r.Intn(nNodes)}}
+		feats = append(feats, "db-busy-faults")
+		extra = 8
+	}
 	// the fair suffix: every connection is (re-)established first
 	for _, cc := range s.sc.Conns {
 		c := s.nodes[cc.At].conns[cc.Peer]
@@ -592,7 +607,7 @@ func (g *vGen) runScenario(idx int, dir string) vVerdict {
 	}
 	expireEvery := 1 + r.Intn(3)
 	_, diffNow := s.startSets()
-	maxRounds := 12 + 3*expireEvery + diffNow/40 + 4*nNodes
+	maxRounds := 12 + 3*expireEvery + diffNow/40 + 4*nNodes + extra
 	rounds := s.fairSuffix(maxRounds, expireEvery)
 	post := s.stabilityProbe()
 	s.exec(&vOp{Op: "observe"})
